@@ -232,6 +232,9 @@ func checkListing(c Case) error {
 	if errDec != errDis {
 		return harness.Violatef("c11/error-differs", "Decode error %v, Disassemble error %v", errDec, errDis)
 	}
+	if errNil := decode.Decode(nil, src); errNil != errDis {
+		return harness.Violatef("c11/error-differs", "Decode without a Destination: error %v, Disassemble error %v", errNil, errDis)
+	}
 	if errDec != nil {
 		if listing != nil {
 			return harness.Violatef("c11/listing-on-error", "Disassemble returned a listing together with an error")
@@ -535,7 +538,7 @@ func checkListing(c Case) error {
 	return nil
 }
 
-var subListing = harness.Define("listing", "byte strings given to Decode and Disassemble: same error value; for accepted ones the listing is parsed (14-column byte field + text): bytes concatenate to the input, one instruction line per delivered call, printed values (numbers re-read at 32 bits, colours, selectors, ADJ, repeat counts, arc flags, metadata) equal the delivered values; non-trivial = accepted with at least one instruction", checkListing)
+var subListing = harness.Define("listing", "byte strings given to Decode (with a recording Destination and with none) and Disassemble: same error value; for accepted ones the listing is parsed (14-column byte field + text): bytes concatenate to the input, one instruction line per delivered call, printed values (numbers re-read at 32 bits, colours, selectors, ADJ, repeat counts, arc flags, metadata) equal the delivered values; non-trivial = accepted with at least one instruction", checkListing)
 
 func TestCorpus(t *testing.T) {
 	files := corpus.All()
